@@ -16,7 +16,7 @@ import (
 	"time"
 
 	"verif/mc/explore"
-	_ "verif/mc/props"
+	"verif/mc/props"
 )
 
 func main() {
@@ -39,12 +39,17 @@ func main() {
 		workers  = flag.Int("workers", 0, "")
 		budget   = flag.Int("budget", 0, "wall-clock budget in seconds (0: tier default)")
 		list     = flag.Bool("list", false, "list properties")
+		racepass = flag.Int("racepass", 0, "internal: run the C06 free-running pass with this many iterations per scenario")
 	)
 	flag.Parse()
 	if *list {
 		for _, id := range explore.IDs() {
 			fmt.Println(id)
 		}
+		return
+	}
+	if *racepass > 0 {
+		props.C06RacePass("quick", *racepass)
 		return
 	}
 	if *aux != "" {
